@@ -62,7 +62,7 @@ def run_core_property(ctx, module, kinds, oracles, quick, thorough, rule, extra_
         "steps_oracle_only": stats.get("oracle_only_steps", 0),
         "op_histogram": stats.get("op_hist", {}),
         "error_histogram": stats.get("err_hist", {}),
-        "modelled_ops": modelled + (["rm_rxns (lists, with / without remove_orphans, unknown identifiers skipped: Core.removeRxns)"] if "rm_rxns" in stats.get("op_hist", {}) else []) + (["add_rxns (one new reaction, metabolites of the model, no rule: Core.addRxn)"] if "add_rxns" in stats.get("op_hist", {}) else [])
+        "modelled_ops": modelled + (["rm_rxns (lists, with / without remove_orphans, unknown identifiers skipped: Core.removeRxns)"] if "rm_rxns" in stats.get("op_hist", {}) else []) + (["add_rxns (one new reaction over metabolites of the model: Core.addRxn; with a gene rule outside a context: Core.addRxnR)"] if "add_rxns" in stats.get("op_hist", {}) else [])
                         + (["add_model_mets (one metabolite: Core.addMet)"] if "add_model_mets" in stats.get("op_hist", {}) else [])
                         + (["rm_mets (one metabolite, destructive or not: Core.rmMet / Core.rmMetD)"] if "rm_mets" in stats.get("op_hist", {}) else [])
                         + (["imul (reaction *= k, k != 0: Core.imul)"] if "imul" in stats.get("op_hist", {}) else [])
